@@ -32,13 +32,14 @@ def main(a):
     bad = 0
     n = 0
     p = SimProcess({"set_key": "k"})
-    classes = {"text": "text", "num": "num", "hex": "hex", "t7": "t7", "md5": "md5-4", "sha": "sha", "j9": "j9p", "aws": "aws"}
+    classes = {"text": ["text"], "num": ["num"], "hex": ["hex"], "t7": ["t7"], "md5": ["md5-4", "md5-1", "md5-8"], "sha": ["sha"],
+               "j9": ["j9p", "j9p-num", "j9p-hex", "c9"], "aws": ["aws"]}
     quote_ok = {}
     with p:
         for t, allowed, kind in G.TEMPLATES:
-            for cls in allowed:
-                for rep in range(3):
-                    secrets = GC.gen_secrets(r, 2, classes=[classes[cls]])
+            for cls, icls in [(c, ic) for c in allowed for ic in classes[c]]:
+                for rep in range(2):
+                    secrets = GC.gen_secrets(r, 2, classes=[icls])
                     ctx = {"a4": [0x17010203], "a6": [], "k4": [], "as": [], "words": []}
                     ln = GC.secret_line(r, ctx, secrets, kinds=(kind,), templates=[(t, allowed, kind)])
                     fa = p.af.FileAnonymizer(**fa_kwargs({"pwd": True, "salt": "Salt1"}))
